@@ -118,9 +118,6 @@ class Highlighter(object):
 
             if lineno > current_line:
                 diff = lineno - current_line
-                if diff > 1:
-                    lines += [""] * (diff - 1)
-
                 if current_type is not None:
                     buffer = buffer.rstrip("\n")
                     if last_line is not None:
@@ -131,6 +128,10 @@ class Highlighter(object):
 
                 # New line
                 lines.append(line)
+                if diff > 1:
+                    # Lines without any token
+                    lines += [""] * (diff - 1)
+
                 line = ""
                 last_line = None
                 current_line = lineno
